@@ -289,7 +289,7 @@ resname {res}
                     "polyply.src.build_file_parser:BuildDirector._volume", "polyply.src.generate_templates:GenerateTemplates.run_molecule",
                     "polyply.src.generate_templates:GenerateTemplates.gen_templates", "polyply.src.generate_templates:compute_volume",
                     "polyply.src.generate_templates:map_from_CoG"],
-           rejects=(), selector_only=True, must_cover=["user template", "user volume", "generated"],
+           rejects=(), selector_only=True, must_cover=["user template", "user volume", "generated", "template defined twice"],
            stubs=["generate_templates.optimize_geometry -> returns the initial coordinates as optimised", "generate_templates._expand_inital_coords -> fixed distinct coordinates"],
            outside=["that the optimiser finds a geometry; the Kamada-Kawai layout"],
            bounds={"quick": dict(), "thorough": dict()})
@@ -322,6 +322,13 @@ def precedence(sx, B):
     if any(give_v.values()):
         sx.cover("user volume")
     read_build_file(lines, top, top.molecules)
+    twice = sx.sel("template_RA_defined_again_in_a_second_build_file", [False, True]) and give_t["RA"]
+    if twice:
+        # the later definition counts; its coordinates are cut from a structure, i.e. not centred on the origin
+        user_pos["RA"] = {"a1": (1.0, 1.2, 0.9), "a2": (1.0, 1.2, 1.35)}
+        atoms = "\n".join("%s TRA %s %s %s" % ((nm,) + p) for nm, p in user_pos["RA"].items())
+        read_build_file(BUILD_TMPL.format(res="RA", atoms=atoms, bonds="a1 a2").split("\n"), top, top.molecules)
+        sx.cover("template defined twice")
     gen_coords_ = {"a1": np.array([1.0, 1.0, 1.0]), "a2": np.array([1.5, 1.0, 1.0]), "b1": np.array([2.0, 2.0, 2.0]),
                    "b2": np.array([2.4, 2.0, 2.0]), "b3": np.array([2.4, 2.5, 2.0])}
     with patched(gt, optimize_geometry=lambda block, coords, inter: (True, coords),
